@@ -18,13 +18,13 @@ PI_D = Decimal("3.14159265358979323846264338327950288419716939937510582097494459
 TWO_PI_D = 2 * PI_D
 
 RULE = ("cases from rng(seed, 11, 0, i), mode = i mod 5: (0) SE(2) chain and (1) SE(3) chain of L mixed operations (+, -, inverse, copy, boxplus, constructor, from_matrix), "
-        "L = 400 (quick) / up to 10^4 (thorough), operands hostile (angles to 1e6, both sides of +-pi, nextafter(pi); quaternions w<0, w=0, 180 deg); (2) optimizer runs of 1..50 "
+        "L = 400 (quick) / up to 10^4 (thorough), operands hostile (constructor angles sometimes preceded by the same value passed as float32/float16/int; angles to 1e6, both sides of +-pi, nextafter(pi); quaternions w<0, w=0, 180 deg); (2) optimizer runs of 1..50 "
         "iterations on SE(2)/SE(3) graphs (converging and diverging), driven iteration by iteration (checked after each) or as one call (checked at the end); (3) loader lines with hostile angles / non-unit measurement quaternions; "
         "(4) normalize() on quaternions of norm 1e-3..1e3, incl. exactly / almost unit ones with w<0. distinct = fingerprint of the chain's operand stream / graph; non-trivial = chain with >= 50 operations "
         "or an optimizer run with >= 1 completed iteration or a loader/normalize case with a non-canonical input.")
 REQ = ["eval:se2-angle-in-range", "eval:se2-angle-congruent", "eval:se3-unit-norm", "eval:normalize-postcondition", "eval:optimizer-vertex-invariant", "eval:loader-angle", "mode:0", "mode:1",
        "mode:2", "mode:3", "mode:4", "class:angle_huge", "class:angle_nearpi", "class:op:boxplus", "class:op:inverse", "class:op:sub", "class:diverging_run", "class:single_call_run_10+_iterations", "class:iteration_by_iteration_run", "class:normalize_input:unit_wneg",
-       "class:normalize_input:almost_unit_wneg", "class:normalize_again_after_in_place_write"]
+       "class:normalize_input:almost_unit_wneg", "class:normalize_again_after_in_place_write", "class:same_value_earlier_in_narrower_type"]
 PLAN = {
     "quick": {"cases": 1000, "soft_s": 70, "min_nontrivial": 300, "require": REQ},
     "thorough": {"cases": 12000, "soft_s": 1500, "min_nontrivial": 3000, "require": REQ},
@@ -95,6 +95,25 @@ def se2_chain(ctx, rng, L):
                 check_se2(ctx, P2, th + Decimal(a), abs(float(th)) + abs(a), "boxplus", {"a": float(th), "delta": a})
                 ctx.count("class:op:boxplus")
             elif op == "constructor":
+                if rng.random() < 0.3:
+                    # history: the same numeric value was passed earlier in another floating type (only the float64 call below is judged)
+                    a = float(np.float32(a))
+                    stream[-1] = a
+                    other = rng.choice(["f32", "f16", "int"])
+                    try:
+                        if other == "f32":
+                            M.PoseSE2([0.0, 0.0], np.float32(a))
+                        elif other == "f16" and abs(a) < 6e4:
+                            a = float(np.float16(a))
+                            stream[-1] = a
+                            M.PoseSE2([0.0, 0.0], np.float16(a))
+                        elif abs(a) < 1e6:
+                            a = float(round(a))
+                            stream[-1] = a
+                            M.PoseSE2([0.0, 0.0], int(a))
+                    except Exception:  # noqa: BLE001 - narrower types are outside the property; only their after-effects matter
+                        pass
+                    ctx.count("class:same_value_earlier_in_narrower_type")
                 P2 = M.PoseSE2([float(P[0]), float(P[1])], a)
                 check_se2(ctx, P2, Decimal(a), abs(a), "constructor", {"angle": a})
             else:
